@@ -106,6 +106,8 @@ def _targets(body_nodes, extra_targets=()):
             elif isinstance(n, ast.Call) and isinstance(n.func, ast.Attribute) and n.func.attr in (
                     "append", "extend", "add", "update", "remove", "pop", "clear", "insert", "sort", "reverse"):
                 b = n.func.value
+                if isinstance(b, ast.Subscript):
+                    b = b.value            # d[k].remove(x): an element of the container d changes - d is what gets havocked
                 if isinstance(b, ast.Name):
                     mutated.add((b.id, None))
                 elif isinstance(b, ast.Attribute) and isinstance(b.value, ast.Name):
